@@ -8,7 +8,7 @@
      show4 / show6          dotted-quad text / RFC 5952 text of an address
      expand4 / expand6      the pattern lists of SigmaCIDRExpression.expand() *)
 From Coq Require Import NArith List Bool.
-From PS Require Import Base.Chars Base.Outcome Model.SString Spec.Items Model.Cidr Spec.Net Proofs.CidrP Proofs.Cidr6P.
+From PS Require Import Base.Chars Base.Outcome Model.SString Spec.Items Model.Cidr Spec.Net Proofs.CidrP Proofs.Cidr6P Proofs.Cidr6CoverP.
 Import ListNotations.
 Open Scope N_scope.
 
@@ -59,15 +59,40 @@ Theorem C18_exact_cover4_sound :
 Proof. exact exact_cover4_sound. Qed.
 Print Assumptions C18_exact_cover4_sound.
 
-(* FULL STATEMENT for IPv6 (false of the faithful model, see the refutation below):
+(* ---------------------------------------------------------------- IPv6
+   Textual form: "the address" always means the compressed text ipaddress prints (RFC 5952: lower-case
+   hex groups without leading zeros, the leftmost longest run of two or more zero groups written "::"),
+   i.e. show6. The exploded form (2001:0db8:0000:...) and other spellings are NOT meant and are in
+   general not matched by the patterns.
+
+   FULL STATEMENT (false of the faithful model, see C18_v6_cover_refuted):
      forall a len x, wf_net 128 a len -> in_net 128 a len x ->
        exists pats, expand6 a len None = Ok pats /\ covered pats (show6 x) = true
-   PROVED PART: only the prefix lengths 0 and 128 (pattern "*", resp. the address text itself, which
-   as a pattern denotes exactly itself because RFC 5952 text has no wildcard characters).
-   NOT PROVED (modelled and checked by the correspondence on sampled addresses only): coverage for
-   0 < len < 128 on the domain where every completely fixed 16-bit group of the nibble-aligned
-   subnets is non-zero (Run.C18run.stable6). The missing lemma is: for lo <= x <= hi in such a subnet
-   the longest common prefix of show6 lo and show6 hi is a prefix of show6 x. *)
+   It holds - and is proved, C18_v6_cover - on the domain fixed_nonzero6: every completely fixed 16-bit
+   group of every nibble-aligned subnet the expansion enumerates is non-zero (then no fixed group can
+   take part in "::" compression, the texts of all addresses of a subnet share the fixed groups and the
+   fixed nibbles of the partly fixed group, and the texts of the first and the last address differ
+   right after them). The complement of that domain is the input class of known finding D20.
+   A scoped /128 is excluded: its single pattern is the address text with the scope id. *)
+Theorem C18_v6_cover :
+  forall a len sc x,
+    wf_net 128 a len -> (len = 128 -> sc = None) -> fixed_nonzero6 a len = true -> in_net 128 a len x ->
+    exists pats, expand6 a len sc = Ok pats /\ covered pats (show6 x) = true.
+Proof. exact v6_cover. Qed.
+Print Assumptions C18_v6_cover.
+
+(* IPv6 patterns are NOT exact, not even on that domain: they also match addresses outside the network
+   (2001:db8::/33 yields "2001:db8:*", which matches 2001:db8:8000::; 1234:5678:1:ab00::/56 yields
+   "1234:5678:1:ab*", which matches 1234:5678:1:ab::). The property only demands coverage for IPv6; the
+   over-approximation is recorded here as a proved fact about the code, replayed on the real code. *)
+Theorem C18_v6_exact_refuted :
+  exists a len y pats,
+    wf_net 128 a len /\ fixed_nonzero6 a len = true /\ y < 2 ^ 128 /\ ~ in_net 128 a len y /\
+    expand6 a len None = Ok pats /\ covered pats (show6 y) = true.
+Proof. exact v6_exact_refuted. Qed.
+Print Assumptions C18_v6_exact_refuted.
+
+(* what had been proved before C18_v6_cover: the prefix lengths 0 and 128 with no premise on the groups *)
 Theorem C18_v6_cover_partial :
   forall a len x, wf_net 128 a len -> len = 0 \/ len = 128 -> in_net 128 a len x ->
     exists pats, expand6 a len None = Ok pats /\ covered pats (show6 x) = true.
